@@ -169,4 +169,29 @@ theorem Rel.run {s s' : Nat} (hle : s ≤ s') (n : Nat) (t : Task) :
       (Rsj.Eval.step { maxStack := s' } (Rsj.Eval.run { maxStack := s' } k) t)
     exact Rel.step hle ih t
 
+/-- The monadic part of `evalProgram` (force, deep-evaluate, manifest). -/
+def progOf (cfg : Cfg) (fuel : Nat) (e : Expr) : M String := do
+    let stdT ← allocThunk (.done .null)
+    let root ← allocEnv { parent := none, vars := [("std", stdT)], obj := none }
+    let t ← allocThunk (.pending (.expr e root))
+    let v ← Rsj.Eval.run cfg fuel (.force t 0)
+    let _ ← Rsj.Eval.run cfg fuel (.deep v 0)
+    match ← Rsj.Eval.run cfg fuel (.manifest v 0 true) with
+    | .str s => pure s
+    | _ => throw (.internal "manifest did not return a string")
+
+/-- `evalProgram` is `progOf` run from the empty store, then rendered. -/
+theorem evalProgram_eq (cfg : Cfg) (fuel : Nat) (e : Expr) :
+    evalProgram cfg fuel e = match progOf cfg fuel e {} with
+      | none => ("gas", {})
+      | some (.ok s, st) => ("ok " ++ s, st)
+      | some (.error er, st) => (showErr er, restoreInProgress st) := rfl
+
+theorem Rel.progOf {s s' : Nat} (hle : s ≤ s') (fuel : Nat) (e : Expr) :
+    Rel (progOf { maxStack := s } fuel e) (progOf { maxStack := s' } fuel e) := by
+  unfold Rsj.Eval.progOf
+  have hrec : ∀ t, Rel (Rsj.Eval.run { maxStack := s } fuel t)
+      (Rsj.Eval.run { maxStack := s' } fuel t) := Rel.run hle fuel
+  rel_all hle hrec
+
 end Rsj.Eval
